@@ -291,6 +291,18 @@ def external_conflicts(path, seedstr):
             extra.append(q)
             if rng.random() < 0.3:
                 extra.append(BasePair(q.nt2, q.nt1, q.lw, q.saenger))
+    # a chain numbered from 0 by its authors: the nucleotide numbered 0 and its neighbour (same base) compete for one partner
+    for k, r0 in enumerate(s.residues):
+        if r0.auth is not None and r0.auth.number == 0 and r0.is_nucleotide and k + 1 < len(s.residues):
+            r1 = s.residues[k + 1]
+            if r1.chain == r0.chain and r1.one_letter_name.upper() == r0.one_letter_name.upper():
+                from rnapolis.common import Residue
+
+                for p in canon:
+                    if (p.nt1.label, p.nt1.auth) == (r0.label, r0.auth):
+                        extra.append(BasePair(Residue(r1.label, r1.auth), p.nt2, p.lw, p.saenger))
+                    elif (p.nt2.label, p.nt2.auth) == (r0.label, r0.auth):
+                        extra.append(BasePair(p.nt1, Residue(r1.label, r1.auth), p.lw, p.saenger))
     allp = pairs + extra
     rng.shuffle(allp)
     ext = BaseInteractions(allp, bi.stackings, bi.baseRiboseInteractions, bi.basePhosphateInteractions, bi.otherInteractions)
